@@ -3,7 +3,7 @@
    only error.  Statements only; the proofs are in Proofs/NumProofs.v. *)
 From Coq Require Import ZArith Bool.
 From Flocq Require Import IEEE754.Binary IEEE754.Bits.
-From ZV Require Import Model.Num Proofs.NumProofs.
+From ZV Require Import Model.Num Model.NumSpec Model.NumBits Proofs.NumProofs Proofs.NumBitsProofs Proofs.NumFoldProofs Proofs.NumOrderProofs.
 Open Scope Z_scope.
 
 (* ---- 1. master theorem: the code model equals the exact-order specification ---- *)
@@ -355,3 +355,220 @@ Print Assumptions fold_two.
 
 Example ex_fold_three : numeric_fold OpAdd [NInt 9223372036854775807; NInt 0; NInt 5] = Ok (NInt (-9223372036854775804)).
 Proof. reflexivity. Qed.
+
+(* ================================================================== *)
+(* round 6: the integer-only builtins (IntegerDo: sll sra srl mod bitAnd bitOr bitXor, bitNot),
+   every n-ary fold, the arithmetic oracle, mixed int/float order against the exact reals. *)
+From Coq Require Import Reals.
+From Flocq Require Import Core.Raux.
+
+(* ---- 7. IntegerDo equals its exact specification for all 64-bit operands of every kind ---- *)
+Theorem integer_do_matches_spec : forall op a b, wf_num a = true -> wf_num b = true ->
+  integer_do op a b = spec_integer op a b.
+Proof. exact NumBitsProofs.integer_do_matches_spec. Qed.
+Print Assumptions integer_do_matches_spec.
+
+Theorem shl_i64_exact : forall a c, 0 <= c -> shl_i64 a c = wrap64 (a * 2 ^ c).
+Proof. exact NumBitsProofs.shl_i64_exact. Qed.
+Print Assumptions shl_i64_exact.
+
+Theorem shl_u64_exact : forall a c, 0 <= c -> shl_u64 a c = wrapu64 (a * 2 ^ c).
+Proof. exact NumBitsProofs.shl_u64_exact. Qed.
+Print Assumptions shl_u64_exact.
+
+Theorem sra_i64_exact : forall a c, in_i64 a = true -> 0 <= c -> sra_i64 a c = a / 2 ^ c.
+Proof. exact NumBitsProofs.sra_i64_exact. Qed.
+Print Assumptions sra_i64_exact.
+
+Theorem srl_i64_exact : forall a c, 0 <= c -> srl_i64 a c = wrap64 (wrapu64 a / 2 ^ c).
+Proof. exact NumBitsProofs.srl_i64_exact. Qed.
+Print Assumptions srl_i64_exact.
+
+Theorem shr_u64_exact : forall a c, in_u64 a = true -> 0 <= c -> shr_u64 a c = a / 2 ^ c.
+Proof. exact NumBitsProofs.shr_u64_exact. Qed.
+Print Assumptions shr_u64_exact.
+
+Theorem land_signed_spec : forall a b, in_i64 a = true -> in_i64 b = true ->
+  Z.land a b = signed64 (bitw andb 64 a b).
+Proof. exact NumBitsProofs.land_signed_spec. Qed.
+Print Assumptions land_signed_spec.
+
+Theorem lor_signed_spec : forall a b, in_i64 a = true -> in_i64 b = true ->
+  Z.lor a b = signed64 (bitw orb 64 a b).
+Proof. exact NumBitsProofs.lor_signed_spec. Qed.
+Print Assumptions lor_signed_spec.
+
+Theorem lxor_signed_spec : forall a b, in_i64 a = true -> in_i64 b = true ->
+  Z.lxor a b = signed64 (bitw xorb 64 a b).
+Proof. exact NumBitsProofs.lxor_signed_spec. Qed.
+Print Assumptions lxor_signed_spec.
+
+Theorem bitop_bits : forall op f a b i, bit_fun op = Some f -> 0 <= i ->
+  (forall r, int_integer_do op a b = Ok r ->
+     exists z, r = NInt z /\ Z.testbit z i = f (Z.testbit a i) (Z.testbit b i)).
+Proof. exact NumBitsProofs.bitop_bits. Qed.
+Print Assumptions bitop_bits.
+
+Theorem int_integer_do_wf : forall op a b r, in_i64 a = true -> in_i64 b = true ->
+  int_integer_do op a b = Ok r -> wf_num r = true.
+Proof. exact NumBitsProofs.int_integer_do_wf. Qed.
+Print Assumptions int_integer_do_wf.
+
+Theorem integer_do_err_iff : forall op a b, wf_num a = true -> wf_num b = true ->
+  (integer_do op a b = Err <->
+   is_float a = true \/ is_float b = true \/ (op = IMod /\ int_val b = 0)).
+Proof. exact NumBitsProofs.integer_do_err_iff. Qed.
+Print Assumptions integer_do_err_iff.
+
+Theorem integer_do_mod : forall a b, integer_do IMod a b = mod_do a b.
+Proof. exact NumBitsProofs.integer_do_mod. Qed.
+Print Assumptions integer_do_mod.
+
+Theorem int_function_two : forall op a b, int_function op (a :: b :: nil) = integer_do op a b.
+Proof. exact NumBitsProofs.int_function_two. Qed.
+Print Assumptions int_function_two.
+
+Theorem int_function_arity : forall op args, length args <> 2%nat -> int_function op args = Err.
+Proof. exact NumBitsProofs.int_function_arity. Qed.
+Print Assumptions int_function_arity.
+
+Theorem complement_matches_spec : forall a, complement a = spec_complement a.
+Proof. exact NumBitsProofs.complement_matches_spec. Qed.
+Print Assumptions complement_matches_spec.
+
+Theorem complement_wf : forall a r, wf_num a = true -> complement a = Ok r -> wf_num r = true.
+Proof. exact NumBitsProofs.complement_wf. Qed.
+Print Assumptions complement_wf.
+
+Theorem complement_involutive : forall a r, complement a = Ok r -> complement r = Ok a.
+Proof. exact NumBitsProofs.complement_involutive. Qed.
+Print Assumptions complement_involutive.
+
+Example ex_sll_63 : integer_do IShl (NInt 1) (NInt 63) = Ok (NInt (-9223372036854775808)).
+Proof. reflexivity. Qed.
+Example ex_sll_64 : integer_do IShl (NInt 1) (NInt 64) = Ok (NInt 0).
+Proof. reflexivity. Qed.
+Example ex_sll_negative_count : integer_do IShl (NInt 1) (NInt (-1)) = Ok (NInt 0).
+Proof. reflexivity. Qed.
+Example ex_sra_sign_fill : integer_do ISra (NInt (-8)) (NInt 70) = Ok (NInt (-1)).
+Proof. reflexivity. Qed.
+Example ex_srl_neg : integer_do ISrl (NInt (-8)) (NInt 1) = Ok (NInt 9223372036854775804).
+Proof. reflexivity. Qed.
+Example ex_and_neg : integer_do IAnd (NInt (-1)) (NInt 9223372036854775807) = Ok (NInt 9223372036854775807).
+Proof. reflexivity. Qed.
+Example ex_xor_min : spec_integer IXor (NInt (-9223372036854775808)) (NInt (-1)) = Ok (NInt 9223372036854775807).
+Proof. vm_compute. reflexivity. Qed.
+Example ex_or_mixed_uint : integer_do IOr (NInt (-1)) (NUint 2) = Ok (NUint 18446744073709551615).
+Proof. reflexivity. Qed.
+Example ex_bitnot : complement (NInt 5) = Ok (NInt (-6)).
+Proof. reflexivity. Qed.
+Example ex_bitnot_uint_err : complement (NUint 5) = Err.
+Proof. reflexivity. Qed.
+Example ex_int_mod_zero : integer_do IMod (NChar 97) (NUint 0) = Err.
+Proof. reflexivity. Qed.
+
+(* ---- 8. the arithmetic / modulo oracle (NumSpec) is implied by the model on all in-range operands ---- *)
+Theorem arith_matches_spec : forall op a b r, wf_num a = true -> wf_num b = true ->
+  spec_arith op a b = Some r -> numeric_do op a b = r.
+Proof. exact NumBitsProofs.arith_matches_spec. Qed.
+Print Assumptions arith_matches_spec.
+
+Theorem mod_matches_spec : forall a b r, wf_num a = true -> wf_num b = true ->
+  spec_mod a b = Some r -> mod_do a b = r.
+Proof. exact NumBitsProofs.mod_matches_spec. Qed.
+Print Assumptions mod_matches_spec.
+
+(* ---- 9. n-ary folds, every operator, every operand list ---- *)
+Theorem int_fold_wraps : forall op a l, op <> OpDiv -> in_i64 a = true ->
+  numeric_fold op (map NInt (a :: l)) = Ok (NInt (wrap64 (fold_left (exact_op op) l a))).
+Proof. exact NumFoldProofs.int_fold_wraps. Qed.
+Print Assumptions int_fold_wraps.
+
+Theorem uint_fold_wraps : forall op a l, op <> OpDiv -> in_u64 a = true ->
+  numeric_fold op (map NUint (a :: l)) = Ok (NUint (wrapu64 (fold_left (exact_op op) l a))).
+Proof. exact NumFoldProofs.uint_fold_wraps. Qed.
+Print Assumptions uint_fold_wraps.
+
+Theorem fold_float_absorbs : forall op args r,
+  numeric_fold op args = Ok r -> existsb is_float args = true -> is_float r = true.
+Proof. exact NumFoldProofs.fold_float_absorbs. Qed.
+Print Assumptions fold_float_absorbs.
+
+Theorem fold_int_like : forall op args r, op <> OpDiv ->
+  numeric_fold op args = Ok r -> existsb is_float args = false -> is_float r = false.
+Proof. exact NumFoldProofs.fold_int_like. Qed.
+Print Assumptions fold_int_like.
+
+Theorem fold_total : forall op args, op <> OpDiv -> args <> nil -> exists r, numeric_fold op args = Ok r.
+Proof. exact NumFoldProofs.fold_total. Qed.
+Print Assumptions fold_total.
+
+Theorem fold_div_err_from : forall l v,
+  fold_left (fstep OpDiv) l (Ok v) = Err ->
+  exists pre x post w, l = pre ++ x :: post /\ fold_left (fstep OpDiv) pre (Ok v) = Ok w /\
+                       eff_divisor w x = Some 0.
+Proof. exact NumFoldProofs.fold_div_err_from. Qed.
+Print Assumptions fold_div_err_from.
+
+Theorem numeric_do_wf : forall op a b r, wf_num a = true -> wf_num b = true ->
+  numeric_do op a b = Ok r -> wf_num r = true.
+Proof. exact NumFoldProofs.numeric_do_wf. Qed.
+Print Assumptions numeric_do_wf.
+
+Theorem fold_wf : forall op args r, forallb wf_num args = true ->
+  numeric_fold op args = Ok r -> wf_num r = true.
+Proof. exact NumFoldProofs.fold_wf. Qed.
+Print Assumptions fold_wf.
+
+Theorem fold_matches_spec : forall op args r, forallb wf_num args = true ->
+  spec_fold op args = Some r -> numeric_fold op args = r.
+Proof. exact NumFoldProofs.fold_matches_spec. Qed.
+Print Assumptions fold_matches_spec.
+
+Example ex_mul_fold : numeric_fold OpMul [NInt 4611686018427387904; NInt 2; NInt 2; NInt 3] = Ok (NInt 0).
+Proof. reflexivity. Qed.
+Example ex_sub_fold : numeric_fold OpSub [NInt (-9223372036854775808); NInt 1; NInt (-1)] = Ok (NInt (-9223372036854775808)).
+Proof. reflexivity. Qed.
+Example ex_unary_minus_is_identity : numeric_fold OpSub [NInt 5] = Ok (NInt 5).
+Proof. reflexivity. Qed.
+
+(* ---- 10. mixed integer / float comparison against the exact real order ---- *)
+Theorem spec_order_int_float_sound : forall a z g, wf_num a = true -> int_like_val a = Some z ->
+  is_finite 53 1024 g = true ->
+  match spec_order a (NFloat g) with
+  | Ok (Some Lt) => (IZR z < B2R 53 1024 g)%R
+  | Ok (Some Gt) => (B2R 53 1024 g < IZR z)%R
+  | Ok (Some Eq) => B2R 53 1024 g = rnd64 (IZR z)
+  | _ => False
+  end.
+Proof. exact NumOrderProofs.spec_order_int_float_sound. Qed.
+Print Assumptions spec_order_int_float_sound.
+
+Theorem spec_order_float_int_sound : forall a z g, wf_num a = true -> int_like_val a = Some z ->
+  is_finite 53 1024 g = true ->
+  match spec_order (NFloat g) a with
+  | Ok (Some Lt) => (B2R 53 1024 g < IZR z)%R
+  | Ok (Some Gt) => (IZR z < B2R 53 1024 g)%R
+  | Ok (Some Eq) => B2R 53 1024 g = rnd64 (IZR z)
+  | _ => False
+  end.
+Proof. exact NumOrderProofs.spec_order_float_int_sound. Qed.
+Print Assumptions spec_order_float_int_sound.
+
+Theorem spec_order_int_float_exact : forall a z g, int_like_val a = Some z -> Z.abs z <= 2 ^ 53 ->
+  is_finite 53 1024 g = true ->
+  spec_order a (NFloat g) = Ok (Some (Rcompare (IZR z) (B2R 53 1024 g))).
+Proof. exact NumOrderProofs.spec_order_int_float_exact. Qed.
+Print Assumptions spec_order_int_float_exact.
+
+Theorem of_Z_correct : forall z, Z.abs z <= two64 ->
+  B2R 53 1024 (of_Z z) = rnd64 (IZR z) /\ is_finite 53 1024 (of_Z z) = true.
+Proof. exact NumOrderProofs.of_Z_correct. Qed.
+Print Assumptions of_Z_correct.
+
+Example ex_max_int_eq_2p63_after_conversion :
+  compare_function OpEq (NInt 9223372036854775807) (NFloat (of_Z 9223372036854775808)) = Ok true.
+Proof. vm_compute. reflexivity. Qed.
+Example ex_2p53_plus_1_lt_next :
+  compare_function OpLt (NInt 9007199254740993) (NFloat (of_Z 9007199254740994)) = Ok true.
+Proof. vm_compute. reflexivity. Qed.
